@@ -443,7 +443,7 @@ class Fn2Translator(FnTranslator):
         assert t.startswith(".descend ")
         return t[len(".descend "):]
 
-    def stmts(self, body):
+    def stmts_plain(self, body):
         out = []
         saved = getattr(self, "block_consts", {})
         self.block_consts = {}
@@ -476,7 +476,63 @@ class Fn2Translator(FnTranslator):
             return fmt_of(m.left), [self.ex(a) for a in args]
         return fmt_of(m), []
 
+    def is_resolver(self, node):
+        return (isinstance(node, ast.Attribute) and node.attr == "resolver" and self.is_validator(node.value))
+
+    def rcall(self, node, meth):
+        """node is `validator.resolver.<meth>(…)`"""
+        return (isinstance(node, ast.Call) and isinstance(node.func, ast.Attribute) and node.func.attr == meth
+                and self.is_resolver(node.func.value))
+
+    def only_yields(self, body):
+        for s in body:
+            for n in ast.walk(s):
+                if isinstance(n, (ast.Return, ast.Break, ast.Continue, ast.Assign, ast.AugAssign, ast.Try)):
+                    return False
+        return True
+
+    def stmts(self, body):
+        # `resolve = getattr(validator.resolver, "resolve", None)` followed by `if resolve is None: … else: …`
+        body = list(body)
+        for i in range(len(body) - 1):
+            a, b = body[i], body[i + 1]
+            if (isinstance(a, ast.Assign) and len(a.targets) == 1 and isinstance(a.targets[0], ast.Name)
+                    and isinstance(a.value, ast.Call) and isinstance(a.value.func, ast.Name) and a.value.func.id == "getattr"
+                    and len(a.value.args) == 3 and self.is_resolver(a.value.args[0])
+                    and isinstance(a.value.args[1], ast.Constant) and a.value.args[1].value == "resolve"
+                    and isinstance(a.value.args[2], ast.Constant) and a.value.args[2].value is None
+                    and isinstance(b, ast.If) and isinstance(b.test, ast.Compare) and len(b.test.ops) == 1
+                    and isinstance(b.test.ops[0], ast.Is) and isinstance(b.test.left, ast.Name)
+                    and b.test.left.id == a.targets[0].id and isinstance(b.test.comparators[0], ast.Constant)
+                    and b.test.comparators[0].value is None):
+                name = a.targets[0].id
+                used_later = any(isinstance(n, ast.Name) and n.id == name for s2 in (b.body + b.orelse + body[i + 2:]) for n in ast.walk(s2))
+                if used_later:
+                    raise Unsupported("the bound method is used")
+                marker = ast.If(test=ast.Name(id="__resolver_lacks_resolve__", ctx=ast.Load()), body=b.body, orelse=b.orelse)
+                body[i:i + 2] = [marker]
+                break
+        return self.stmts_plain(body)
+
     def stmt(self, s):
+        if isinstance(s, ast.If) and isinstance(s.test, ast.Name) and s.test.id == "__resolver_lacks_resolve__":
+            return ".ifS (.resolverLacksResolve) %s %s" % (self.stmts(s.body), self.stmts(s.orelse))
+        if isinstance(s, ast.With):
+            return ".unsupportedSt \"with\""
+        # x, y = validator.resolver.resolve(e)
+        if (isinstance(s, ast.Assign) and len(s.targets) == 1 and isinstance(s.targets[0], ast.Tuple) and len(s.targets[0].elts) == 2
+                and all(isinstance(t, ast.Name) for t in s.targets[0].elts) and self.rcall(s.value, "resolve")):
+            e = self.ex(self.plain(s.value, 1)[0])
+            x, y = (self.bind(t.id) for t in s.targets[0].elts)
+            return ".resolveRef %s %s (%s)" % (lstr(x), lstr(y), e)
+        if isinstance(s, ast.Expr) and self.rcall(s.value, "push_scope"):
+            return ".pushScope (%s)" % self.ex(self.plain(s.value, 1)[0])
+        if (isinstance(s, ast.Try) and not s.handlers and not s.orelse and len(s.finalbody) == 1
+                and isinstance(s.finalbody[0], ast.Expr) and self.rcall(s.finalbody[0].value, "pop_scope")
+                and not s.finalbody[0].value.args and not s.finalbody[0].value.keywords):
+            if not self.only_yields(s.body):
+                raise Unsupported("try body with control flow or assignments")
+            return ".tryFinallyPop %s" % self.stmts(s.body)
         if isinstance(s, ast.Break):
             return ".brk"
         if isinstance(s, ast.Return):
